@@ -506,3 +506,35 @@ Proof.
     destruct (t <? u + w) eqn:E; inversion H; subst; cbn; repeat split; intros; try discriminate; try congruence; try lia;
       destruct (u + w <=? t) eqn:E2; try lia; try discriminate; try reflexivity.
 Qed.
+
+(* ================================================================== *)
+(** * The hypotheses of the conditional theorems are satisfiable *)
+
+Example pooled_hyps : exists w,
+  pcw_run (pcw0 1 0) pooled_witness = Some w /\ NoDup (pc_arrivals pooled_witness) /\
+  zl_retry (pw_pend w) = 0 /\ pc_q (pw_s w) = [2; 1] /\ pc_avail (pw_s w) = 0.
+Proof.
+  eexists. split; [vm_compute; reflexivity|]. split; [cbn; repeat constructor; cbn; intuition discriminate|].
+  vm_compute. repeat split; reflexivity.
+Qed.
+
+Example gate_hyps : exists s' outs rejs accs,
+  g_run (g0 1 false) [GArr 0; GArr 1; GOpen; GArr 2; GClose; GArr 3] = (s', outs, rejs, accs) /\
+  outs = [0; 2] /\ rejs = [1] /\ g_q s' = [3].
+Proof. do 4 eexists. split; [vm_compute; reflexivity|]. repeat split; reflexivity. Qed.
+
+Example conveyor_hyps : exists w,
+  cvw_run (cvw0 1) [VArr 0; VArr 1; VRes 0; VArr 2] = Some w /\ NoDup (cv_arrivals [VArr 0; VArr 1; VRes 0; VArr 2])
+  /\ vw_rej w = [1] /\ vw_done w = [0] /\ vw_pend w = [2].
+Proof.
+  eexists. split; [vm_compute; reflexivity|]. split; [cbn; repeat constructor; cbn; intuition discriminate|].
+  vm_compute. repeat split; reflexivity.
+Qed.
+
+Example batch_hyps : exists w,
+  bw_run (bw0 2 true) [BArr 0; BArr 1; BArr 2; BFireTimeout; BRes [0; 1]] = Some w /\
+  bw_done w = [0; 1] /\ b_inbatch (bw_pend w) = [2].
+Proof. eexists. split; [vm_compute; reflexivity|]. vm_compute. split; reflexivity. Qed.
+
+Example conc_hyps : cm_ok (CFixed 2 0) /\ cm_ok (CWeighted 5 0) /\ cm_ok (CDyn 2 1 (Some 4) 0).
+Proof. unfold cm_ok. cbn. lia. Qed.
